@@ -71,6 +71,9 @@ def cases(unit):
         yield {'fam': 'wide', 'n': 129}
         if unit.get('tier') != 'quick':
             yield {'fam': 'wide', 'n': 65544}
+            yield {'fam': 'churn', 'n': 40000}
+        else:
+            yield {'fam': 'churn', 'n': 600}
     elif fam == 'many':
         # many groups: the j-th new inner group belongs to parent bit j of the mask (all 2^n assignments)
         for mask in range(2 ** unit['groups']):
@@ -109,6 +112,23 @@ def run_case(case, acc):
         return run_raw(case, acc)
     if fam == 'many':
         return run_many(case, acc)
+    if fam == 'churn':
+        # far more groups created over the run than are ever alive: overlapping windows, two groups per window, per-item results
+        n = case['n']
+        opspecs.FUNCS['k_par'] = lambda x: 1000 + x % 2
+        items = list(range(n))
+        spec = [['roll', 2, 1, [['group_by', 'k_par', [['scan', 'add', '0']]], ['to_list']]]]
+        sink, ctx, store = harness.run_api(spec, items)
+        acc.evals += 1
+        acc.events += n
+        acc.traces += 1
+        exp = [[items[i], items[i + 1]] for i in range(n - 1)] + [[items[-1]]]
+        out = []
+        if sink.error is not None or sink.items != exp:
+            bad = next((i for i, (a, b) in enumerate(zip(exp, sink.items)) if a != b), min(len(exp), len(sink.items)))
+            out.append(viol('churn', 'windows-differ', {'n': n, 'first_difference_at_window': bad, 'emitted': len(sink.items), 'error': repr(sink.error)}))
+        acc.nontrivial.add(fast_hash(repr(case)))
+        return out
     if fam == 'wide':
         # hundreds of groups (indices and key values beyond the interpreter's small-int range), three interleaved passes
         n = case['n']
